@@ -241,9 +241,42 @@ var more = map[string]func(*Analysis, func(Violation)){}
 
 // ---- C01 ------------------------------------------------------------------------------------
 
+// skippedDayArg: the run has a process zone and one of the call's date arguments is a calendar day that zone skipped
+// entirely (2011-12-30 in Pacific/Apia, 1993-08-21 in Pacific/Kwajalein): no instant of the process's clock lies on
+// it, C13 exempts it, and no check compares its digits on the wire.
+func (an *Analysis) skippedDayArg(c *Call) bool {
+	if an.Sc.TZ == "" {
+		return false
+	}
+	loc := zones.Load(an.Sc.TZ)
+	if loc == nil {
+		return false
+	}
+	var ds []model.Date
+	a := &c.St.Args
+	if a.Card != nil {
+		ds = append(ds, a.Card.From, a.Card.To)
+	}
+	if a.Profile != nil {
+		ds = append(ds, a.Profile.From, a.Profile.To)
+	}
+	if a.Task != nil {
+		ds = append(ds, a.Task.From, a.Task.To)
+	}
+	for _, d := range ds {
+		if !d.Zero && model.ValidDate(d.Y, d.M, d.D) && zones.NoInstant(loc, d.Y, d.M, d.D) {
+			return true
+		}
+	}
+	return false
+}
+
 func checkC01(an *Analysis, add func(Violation)) {
 	for _, c := range an.Calls {
 		if c.Reject != "" || c.Begin == nil || c.End == nil {
+			continue
+		}
+		if an.skippedDayArg(c) {
 			continue
 		}
 		want := model.Encode(c.St.Op, &c.St.Args)
